@@ -358,6 +358,12 @@ class SimWorld:
             self.accepted_log.append(rec)
         if "noeffect" in self.checks:
             self.check_no_effect(rec)
+            if rec["in_txn"] and rec["accepted"] and kind in ("cancel", "update", "replace") and order is not None and id(order) in self.owner_override:
+                txn_client = self.lab.clients[order.trade.strategy.sspec.get("client", 0)]
+                if self.owner_override[id(order)] is not txn_client:
+                    self.fail("request-accepted-in-another-clients-transaction", (kind, "forced" if rec["force"] else "plain"),
+                              "%s of an order held through client %s accepted inside a transaction of client %s" % (
+                                  kind, self.owner_override[id(order)].username, txn_client.username))
         if "lifecycle" in self.checks and kind in ("cancel", "update", "replace") and order is not None:
             if rec["accepted"] and not rec["guard"]:
                 self.fail("request-accepted-in-wrong-state", (kind, rec["before"]["status"], order.order_type.ORDER_TYPE.name),
@@ -1427,6 +1433,32 @@ def make_machine(world_cls, checks, cfg_strategy, rule_weights=None):
                 op2["pers"] = "LAPSE"
             self._do({"_": "req", "si": si, "o": -1, "pool": "live", **op2})
             self._do({"_": "book", "dt": 1000, "rc": []})
+            self._do({"_": "book", "dt": 1000, "rc": []})
+
+        @precondition(lambda self: rw.get("resubmit", 0) > 0 and rw["txn"] > 0 and self.w is not None and len(self.w.lab.clients) > 1)
+        @rule(data=st.data())
+        def foreign_client_request(self, data):
+            """directed: an order refused while the market is suspended is submitted again through ANOTHER client; a
+            follow-up request for it (forced or not) inside a transaction of the strategy's usual client is refused with an
+            error - forcing skips the controls, nothing else"""
+            d = data.draw
+            si = d(st.integers(0, self.ns - 1))
+            r = d(st.integers(0, self.nr - 1))
+            self._do({"_": "suspend", "dt": 50, "bump": False})
+            self._do({"_": "req", "op": "place", "si": si, "r": r, "side": "BACK", "type": "LIMIT", "tick": min(self.nt - 1, self.mids[r] + 9), "size": 2.0,
+                      "pers": "PERSIST", "trade": "new"})
+            self._do({"_": "suspend", "dt": 50, "bump": False})  # (re-opens)
+            self._do({"_": "req", "op": "resubmit", "si": si, "o": -1, "other_client": True})
+            self._do({"_": "book", "dt": 1000, "rc": []})
+            kind = d(st.sampled_from(["cancel", "cancel", "update", "replace"]))
+            item = {"op": kind, "o": -1, "pool": "any", "force": d(st.booleans())}
+            if kind == "cancel":
+                item["red"] = None
+            elif kind == "update":
+                item["pers"] = "LAPSE"
+            else:
+                item["ticks"] = 2
+            self._do({"_": "txn", "si": si, "items": [item], "raise_through": False})
             self._do({"_": "book", "dt": 1000, "rc": []})
 
         @precondition(lambda self: rw.get("cancel_batch", 0) > 0)
